@@ -603,6 +603,8 @@ _INSTANCES = []
 
 def _worker(i):
     signal.signal(signal.SIGINT, signal.SIG_IGN)
+    import warnings
+    warnings.simplefilter("ignore")
     inst = _INSTANCES[i]
     try:
         sys.setrecursionlimit(20000)
